@@ -734,7 +734,12 @@ def seq_equals(s1: Union["ISeq", ISequential], s2: Any) -> bool:
     for e1, e2 in itertools.zip_longest(s1, s2, fillvalue=sentinel):  # type: ignore[arg-type]
         if bool(e1 is sentinel) or bool(e2 is sentinel):
             return False
-        if e1 != e2:
+        # As in `runtime.equals`: Python considers True == 1 and False == 0, but a
+        # boolean is never equal to a number in Basilisp.
+        if isinstance(e1, bool) or isinstance(e2, bool):
+            if e1 is not e2:
+                return False
+        elif e1 != e2:
             return False
     return True
 
